@@ -7,6 +7,8 @@ mod common;
 mod oracle;
 
 mod c01;
+#[cfg(feature = "net")]
+mod c01_cli;
 mod c02;
 mod c11_13;
 #[cfg(feature = "net")]
